@@ -22,6 +22,8 @@ use crate::stgen::rt::{snapshot, Real, RealFault};
 use crate::stgen::{generate, GenConfig};
 use crate::stref::{flatten_state, CycleEnd, Machine, RefConfig};
 
+#[path = "c02/grid.rs"]
+mod grid;
 #[path = "c02/handmade.rs"]
 mod handmade;
 
@@ -67,11 +69,16 @@ pub struct Case {
 }
 
 pub fn config_for(dial: &str) -> GenConfig {
-    if dial == "implicit" {
+    let mut cfg = if dial == "implicit" {
         GenConfig::implicit_core()
     } else {
         GenConfig::strict_core()
-    }
+    };
+    // C02 wants the paired extremes (min / -1, -min, max + 1, ...) with real probability;
+    // the switches default to off for the other users of stgen.
+    cfg.boundary_pairs = true;
+    cfg.trace_boundary_bursts = true;
+    cfg
 }
 
 fn opts_of(bits: u8) -> PrintOpts {
@@ -558,6 +565,26 @@ fn run(ctx: &mut RunCtx) {
         tier.pick(12_000, 400_000),
         check_case,
     );
+    // Enumerated boundary grid (deterministic, independent of VERIF_SEED): replay tier for
+    // saved grid cases first, then this worker's share of the grid.
+    ctx.search(
+        "grid",
+        Just(grid::all_cases().swap_remove(0)),
+        0,
+        grid::check,
+    );
+    if ctx.only_replay.is_none() {
+        let cases = grid::all_cases();
+        let n = ctx.nworkers.max(1);
+        for (i, c) in cases.iter().enumerate() {
+            if i % n != ctx.worker {
+                continue;
+            }
+            let j = serde_json::to_value(c).unwrap_or(serde_json::Value::Null);
+            ctx.enumerated("grid", &j, |p| grid::check(c, p));
+        }
+    }
+
     // The implicit dial (untyped literals, widening assignments) is F8 territory: while that
     // finding is open only its reproducer is replayed (-> KNOWN-FINDING line); once it is
     // fixed the dial joins the search.
